@@ -223,6 +223,10 @@ var ctxKinds = []ctxKind{
 	{"custom", "cancel", "a context.Context implemented by the host (own Done channel, Err = context.Canceled)"},
 	{"custom-child", "cancel", "context.WithCancel(host-implemented context); the host context is cancelled"},
 	{"afterfunc-cause", "cancel", "child = WithCancelCause(bg), cancelled by context.AfterFunc(parent, ...) with the parent's cause when the parent is cancelled with errHost"},
+	// a deadline far beyond anything the script waits for, and an early explicit cancellation
+	{"far-deadline-cancelled", "cancel", "context.WithTimeout(bg, 2400h), ended early by its cancel()"},
+	{"far-deadline-child-of-cancelled-parent", "cancel", "context.WithTimeout(parent, 2400h) where parent = WithCancel(bg) is cancelled early"},
+	{"cancelled-child-of-far-deadline", "cancel", "WithCancel(parent), cancelled early, where parent = context.WithDeadline(bg, now+2400h)"},
 	{"deadline", "deadline", "context.WithDeadline(bg, now+d)"},
 	{"timeout-cause", "deadline", "context.WithTimeoutCause(bg, d, errHost)"},
 	{"deadline-cause", "deadline", "context.WithDeadlineCause(bg, now+d, errHost)"},
@@ -239,6 +243,9 @@ func ctxKindByName(n string) *ctxKind {
 }
 
 var errHost = errors.New("host is shutting down")
+
+// farDeadline lies beyond the end of every sleep of the catalogue (the longest is 10^6 s)
+const farDeadline = 2400 * time.Hour
 
 // hostCtx is a context implemented outside the standard library
 type hostCtx struct {
@@ -310,6 +317,19 @@ func makeContext(c *caseData) (ctx context.Context, cancel func(), release func(
 			case <-time.After(5 * time.Second):
 			}
 		}, release
+	case "far-deadline-cancelled":
+		x, xc := context.WithTimeout(bg, farDeadline)
+		return x, xc, release
+	case "far-deadline-child-of-cancelled-parent":
+		p, pc := context.WithCancel(bg)
+		x, xc := context.WithTimeout(p, farDeadline)
+		rel = append(rel, xc)
+		return x, pc, release
+	case "cancelled-child-of-far-deadline":
+		p, pc := context.WithDeadline(bg, time.Now().Add(farDeadline))
+		x, xc := context.WithCancel(p)
+		rel = append(rel, pc)
+		return x, xc, release
 	case "deadline":
 		x, xc := context.WithDeadline(bg, time.Now().Add(d))
 		return x, xc, release
@@ -980,12 +1000,17 @@ func plan(d *mon.Driver) []caseData {
 			}
 			// quick: every blocking shape (where the context's error comes out of the blocking
 			// primitive itself), a sample of the ticking ones
-			if sh.Kind == "park" || r.Chance(1, 6) {
+			far := strings.Contains(ck.Name, "far-deadline")
+			if sh.Kind == "park" || (!far && r.Chance(1, 6)) {
 				add(sh, mon.Pick(r, []string{"loop", "end"}), nil, ins[r.Intn(len(ins))])
 			}
 		}
 		if !d.Thorough() {
-			for j := 0; j < 3; j++ {
+			nn := 3
+			if strings.Contains(ck.Name, "far-deadline") {
+				nn = 1
+			}
+			for j := 0; j < nn; j++ {
 				sh := &shapes[r.Intn(len(shapes))]
 				if ins := insOf(sh, ck.Mode); len(ins) > 0 {
 					add(sh, "loop", []string{mon.Pick(r, spawnForms)}, ins[r.Intn(len(ins))])
